@@ -32,8 +32,11 @@ REAL_EVO = {"evo", "evo.tools.log", "evo.tools.settings", "evo.tools.settings_te
 
 
 class LoopIter:
-    def __init__(self, api, K, it, funcq):
+    def __init__(self, api, K, it, funcq, elem_mut=False):
         self.api, self.K, self.funcq = api, K, funcq
+        self.elem_mut = elem_mut     # the body stores into the loop element (list elements are mutated in place)
+        self.entry_get = None
+        self.cur_elem = None
         self.raw = it
         self.concrete = True
         self.seq = None
@@ -48,7 +51,12 @@ class LoopIter:
         return self.raw
 
     def generic(self):
-        return self.seq.get(self.index)
+        e = self.seq.get(self.index)
+        if self.elem_mut:
+            import copy as _copy
+            e = _copy.deepcopy(e)    # the body mutates this object; it is written back at the end of the iteration
+            self.cur_elem = e
+        return e
 
 
 class API:
@@ -118,10 +126,15 @@ class API:
         return r
 
     # ---- loops ------------------------------------------------------------
-    def iter_enter(self, K, it, funcq):
+    def iter_enter(self, K, it, funcq, elem_mut=False):
         if isinstance(it, dict):
             raise OutOfReach("iteration over dict object")
-        return LoopIter(self, K, it, funcq)
+        L = LoopIter(self, K, it, funcq, elem_mut)
+        if elem_mut and not L.concrete:
+            if not isinstance(it, SSeq):
+                raise OutOfReach("in-place mutation of the elements of a symbolic array in a loop")
+            L.entry_get = it._get
+        return L
 
     def _spec(self, L):
         q = "%s.%s" % (self.modname, L.funcq)
@@ -133,6 +146,9 @@ class API:
     def _inv(self, L, i, ns):
         con, spec = self._spec(L)
         v = types.SimpleNamespace(**{k: x for k, x in ns.items() if not k.startswith("__")})
+        if L.elem_mut:
+            v.elems = L.seq                       # the list whose elements the loop mutates (current content)
+            v.old_elems = SSeq(L.seq.length(), L.entry_get)   # its content at loop entry
         ctx = cur()
         out = list(spec.inv(C(), i, v))
         return con, spec, out
@@ -153,6 +169,11 @@ class API:
         n = L.seq.length()
         ns = dict(loc)
         new = []
+        if L.elem_mut:
+            # the elements visited so far have been rewritten: the list content is arbitrary (constrained by inv)
+            probe = npstub._probe_shape(L.seq)
+            fresh_seq = sym.sym_seq("elems%d" % K, n, tuple(probe))
+            L.seq._get = fresh_seq._get
         deferred = []
         for idx_, nm in enumerate(names):
             if nm not in loc:
@@ -225,6 +246,10 @@ class API:
         raise OutOfReach("havoc type %r" % (t, ))
 
     def loop_after(self, K, L, loc):
+        if L.elem_mut:
+            # write the (mutated) element back into the list
+            prev, i_, elem = L.seq._get, L.index, L.cur_elem
+            L.seq._get = lambda q, prev=prev, i_=i_, elem=elem: sym.ite_val(q == i_, elem, lambda: prev(q))
         con, spec, clauses = self._inv(L, L.index + 1, loc)
         ctx = cur()
         for cl in clauses:
